@@ -569,9 +569,12 @@ func (b *builder) addFixed() {
 		Method{Name: "Sprintf", Params: []Param{{"format", str}, {"a", slice(anyT)}}, Results: []Param{{"", str}}, Variadic: true})
 	mk("FxVariadic",
 		Method{Name: "Chunks", Params: []Param{{"parts", slice(slice(basic("byte")))}}, Variadic: true},
-		Method{Name: "Hashes", Params: []Param{{"n", in}, {"hs", slice(&T{Kind: KArray, ArrLen: "32", Elem: basic("byte")})}}, Results: []Param{{"", er}}, Variadic: true},
 		Method{Name: "Fields", Params: []Param{{"", slice(str)}}, Variadic: true},
 		Method{Name: "Sum", Params: []Param{{"base", in}, {"more", slice(in)}}, Results: []Param{{"", in}}, Variadic: true})
+	// its own interface: a generator that mangles ...[32]byte emits a file that does not parse, which would hide
+	// what it does to the other variadic shapes
+	mk("FxVariadicArr",
+		Method{Name: "Hashes", Params: []Param{{"n", in}, {"hs", slice(&T{Kind: KArray, ArrLen: "32", Elem: basic("byte")})}}, Results: []Param{{"", er}}, Variadic: true})
 	mk("FxResource",
 		Method{Name: "ID", Results: []Param{{"", str}}},
 		Method{Name: "Id", Results: []Param{{"", str}}},
